@@ -71,6 +71,7 @@ package getty
 // the bare zero length (w stands for an arbitrary key; lengths beyond 16 bits are outside the format)
 //@ func encodeHeapMap
 //@   prop C13
+//@   local buf *bytes.ByteBuffer
 //@   ensures length: result1 == len(result0)
 //@   let w := some(string, "w")
 //@   macro fits(kk) := len(kk) <= 65535 && len(data[kk]) <= 65535
